@@ -122,3 +122,19 @@ Theorem C13_cursor_change_wakes_output_refuted :
   let s := run rq_st (rq_step false 2) rq_cur_witness rq_init in
   rq_req s = true /\ rq_cur s = true /\ rq_sent s = false /\ forall t, enabled rq_st (rq_step false 2) t s = false.
 Proof. exact cursor_change_does_not_wake. Qed.
+
+(* --- marks that arrive while an update is being sent survive: the send step does not touch
+   modifiedRegion after the region to send was computed *)
+Theorem C13_send_keeps_concurrent_marks : forall sched,
+  let s := run sk_st (sk_step false) sched sk_init in
+  sk_pcA s = 2 -> sk_pcO s = 5 -> sk_client s = true.
+Proof. exact send_keeps_concurrent_marks. Qed.
+
+Example C13_send_keeps_concurrent_marks_nonvacuous :
+  let s := run sk_st (sk_step false) [1; 1; 0; 0; 1; 1; 1] sk_init in sk_pcA s = 2 /\ sk_pcO s = 5 /\ sk_client s = true.
+Proof. exact send_keeps_nonvacuous. Qed.
+
+Theorem C13_subtract_after_send_loses_mark :
+  let s := run sk_st (sk_step true) [1; 1; 0; 0; 1; 1; 1] sk_init in
+  sk_pcA s = 2 /\ sk_pcO s = 5 /\ sk_client s = false.
+Proof. exact subtract_after_send_loses_mark. Qed.
